@@ -527,6 +527,7 @@ def c02(ck):
             cid = "u_%s_%d" % (name, j)
             smeta[cid] = (name, s, cs)
             sl.append("%s listenu %d %s | %s" % (cid, 4000, svc.tokens(), " ".join(hx(c) for c in cuts_to_chunks(s, cs))))
+    c02_reference_caller(ck, quick, rng)
     simpl = run_lines(harness_bin("h_service"), sl, shards=6, timeout=900)
     for cid, (name, s, cs) in smeta.items():
         ck.case("sock|%s|%s|%s" % (cid[0], name, cs))
@@ -534,6 +535,102 @@ def c02(ck):
         if not same_out(out_of(simpl[cid]), out_of(impl["w_" + name])) or "timeout=1" in simpl[cid]:
             ck.failures.append({"what": "reply bytes over a listen() socket depend on the sender's segmentation / differ from in-memory",
                                 "stream": name, "cuts": cs, "socket": simpl[cid][:300], "memory": impl["w_" + name][:300]})
+
+
+def c02_reference_caller(ck, quick, rng):
+    """the reference caller of the tail protocol that ships with the repository: examples/ping in multiplex mode.
+    The same pipelined request stream is written one request per write, in a single write, in two writes and in random
+    pieces; the replies must be the same, in order, each exactly once."""
+    import socket
+    import subprocess
+    import time
+    tgt = os.path.join(BUILD, "target-repo")
+    with Lock("cargo-repo"):
+        rc, log = sh(["cargo", "build", "--offline", "--quiet", "-p", "ping"], cwd=REPO, env=dict(ENV, CARGO_TARGET_DIR=tgt), timeout=1800)
+    binp = os.path.join(tgt, "debug", "ping")
+    if rc != 0 or not os.path.exists(binp):
+        ck.tie_broken.append("examples/ping does not build: " + log[-300:])
+        return
+    os.makedirs(os.path.join(BUILD, "tmp"), exist_ok=True)
+    path = os.path.join(BUILD, "tmp", "pingmux-%d.sock" % os.getpid())
+    try:
+        os.unlink(path)
+    except OSError:
+        pass
+    srv = subprocess.Popen([binp, "--varlink=unix:" + path, "-m", "-t", "600"], stdout=subprocess.DEVNULL, stderr=subprocess.DEVNULL)
+    try:
+        t0 = time.time()
+        while not os.path.exists(path) and time.time() - t0 < 10:
+            time.sleep(0.02)
+        nreq = 400
+        reqs = [json.dumps({"method": "org.example.ping.Ping", "parameters": {"ping": "msg-%04d-%s" % (i, "x" * (i % 97))}}).encode() + b"\0" for i in range(nreq)]
+        want = [{"parameters": {"pong": "msg-%04d-%s" % (i, "x" * (i % 97))}} for i in range(nreq)]
+        whole = b"".join(reqs)
+
+        def run(pieces, gap):
+            # the example server writes its replies without buffering, so the client has to read while it sends
+            import threading
+            s = socket.socket(socket.AF_UNIX)
+            s.connect(path)
+            chunks, done = [], threading.Event()
+
+            def reader():
+                quiet = 0
+                s.settimeout(0.4)
+                deadline = time.time() + 30
+                while time.time() < deadline:
+                    try:
+                        b = s.recv(1 << 16)
+                        if not b:
+                            break
+                        chunks.append(b)
+                        quiet = 0
+                    except socket.timeout:
+                        quiet += 1
+                        if done.is_set() and (b"".join(chunks).count(b"\0") >= nreq or quiet > 8):
+                            break
+                    except OSError:
+                        break
+            th = threading.Thread(target=reader)
+            th.start()
+            try:
+                for pc in pieces:
+                    s.sendall(pc)
+                    if gap:
+                        time.sleep(gap)
+            except OSError:
+                pass
+            done.set()
+            th.join()
+            s.close()
+            got = []
+            for fr in b"".join(chunks).split(b"\0")[:-1]:
+                try:
+                    got.append(json.loads(fr.decode("utf-8")))
+                except Exception:
+                    got.append({"__raw__": fr[:60].hex()})
+            return got
+        plans = [("one request per write", reqs, 0.0005), ("a single write", [whole], 0), ("two writes", [whole[:len(whole) // 2], whole[len(whole) // 2:]], 0.002),
+                 ("cut at 8192 and 16384", [whole[:8192], whole[8192:16384], whole[16384:]], 0)]
+        for _ in range(2 if quick else 8):
+            cs = sorted(rng.sample(range(1, len(whole)), 5))
+            plans.append(("random cuts %s" % cs, cuts_to_chunks(whole, cs), 0.001))
+        for name, pieces, gap in plans:
+            got = run(pieces, gap)
+            ck.case("pingmux|" + name)
+            ck.count("reference_caller_ping_multiplex")
+            if got != want:
+                first = next((i for i, (a, b) in enumerate(zip(got, want)) if a != b), min(len(got), len(want)))
+                ck.failures.append({"what": "examples/ping in multiplex mode (the reference caller of handle()'s tail protocol): the replies depend on how the "
+                                            "request stream is segmented", "segmentation": name, "requests": nreq, "replies": len(got), "first_difference_at": first,
+                                    "got_there": got[first] if first < len(got) else None, "expected_there": want[first] if first < len(want) else None})
+    finally:
+        srv.kill()
+        srv.wait()
+        try:
+            os.unlink(path)
+        except OSError:
+            pass
 
 
 NAME_POOL = ["a.b", "a.b.c", "a.bc", "a.b-c", "a.b.c1", "A.b", "a.B", "x-y.z", "a1.b2", "org.example.a", "org.example.ab",
